@@ -670,10 +670,22 @@ func (e *verifEnv) GenerateProfileFrom(src, dst string, rng interface{ Intn(int)
 	if rng.Intn(2) == 0 && p.RegistrationChallenge != nil {
 		p.RegistrationChallenge.Timestamp = rt()
 	}
-	if err := e.State.SaveUserProfile(dst, p); err != nil {
+	// save under dst: start from dst's own (possibly absent) stored profile and
+	// copy the exported fields over, as a handler modifying dst's profile would
+	d, _, _, err := e.State.LoadUserProfile(dst)
+	if err != nil {
 		return nil, err
 	}
-	return p, nil
+	sv, dv := reflect.ValueOf(p).Elem(), reflect.ValueOf(d).Elem()
+	for i := 0; i < sv.NumField(); i++ {
+		if sv.Type().Field(i).IsExported() {
+			dv.Field(i).Set(sv.Field(i))
+		}
+	}
+	if err := e.State.SaveUserProfile(dst, d); err != nil {
+		return nil, err
+	}
+	return d, nil
 }
 
 // LoadProfileFrom reads a profile through the daemon's own loader, from the
@@ -695,6 +707,24 @@ func (e *verifEnv) LoadProfileFrom(user string, cache bool) (*userProfile, bool,
 
 func verifProfilesDiffer(a, b *userProfile) string {
 	return verifValuesDiffer(reflect.ValueOf(a), reflect.ValueOf(b), "profile")
+}
+
+// ResetVolatile clears the in-memory per-user state (pending challenges, push
+// transactions, TOTP limiter) so that schedules start from the same point.
+func (e *verifEnv) ResetVolatile() {
+	e.State.Mutex.Lock()
+	for k := range e.State.localAuthData {
+		delete(e.State.localAuthData, k)
+	}
+	for k := range e.State.vipPushCookie {
+		delete(e.State.vipPushCookie, k)
+	}
+	e.State.Mutex.Unlock()
+	e.State.totpLocalTateLimitMutex.Lock()
+	for k := range e.State.totpLocalRateLimit {
+		delete(e.State.totpLocalRateLimit, k)
+	}
+	e.State.totpLocalTateLimitMutex.Unlock()
 }
 
 // CA certificates exactly as main() adds them to the TLS client pool.
